@@ -104,6 +104,7 @@ POLY_CORPUS = [
     {"type": "hull", "mesh": "cube", "dup": True},
     {"type": "flat", "pts": "square"},
     {"type": "mesh", "mesh": "octa"},
+    {"type": "box", "size": [100.0, 100.0, 100.0]},
 ]
 
 SWEEPS = [
@@ -115,11 +116,12 @@ SWEEPS = [
     {"kind": "T1", "u": [0.0, 1.0, 1.0], "o": [0.5, 0.0, 0.0], "R": PR.RGEN},   # B in general orientation
     {"kind": "T1", "u": Y, "o": [1.0, 0.0, 0.0]},                       # sliding along a touching face
     {"kind": "T1", "u": Z, "o": [0.0, 0.0, 0.0], "R": PR.RX51213},
+    {"kind": "T1", "u": X, "o": [0.0, 0.25, 0.125], "range": 400.0},     # far apart: up to / beyond the default clipping distance
     {"kind": "R1", "axis": Z, "center": [0.0, 0.0, 0.0], "o": [1.5, 0.0, 0.0]},          # thorough only
     {"kind": "R1", "axis": X, "center": [0.0, 0.0, 0.0], "o": [0.0, 0.0, 1.0]},          # thorough only
     {"kind": "T2", "u": X, "v": Y, "o": [0.0, 0.0, 0.75]},                                  # thorough only
 ]
-N_SWEEPS_QUICK = 8
+N_SWEEPS_QUICK = 9
 
 A_POSES = [PR.IDENT, ([[0.0, -1.0, 0.0], [1.0, 0.0, 0.0], [0.0, 0.0, 1.0]], [0.25, 0.0, 0.0])]
 
@@ -143,7 +145,7 @@ class PairScenario(Scenario):
         self.B = Poly(args["b"])
         self.sweep = args["sweep"]
         self.params = PR.sweep_params(self.sweep, args.get("range", 3.0)) + self.aux_params()
-        T = args.get("range", 3.0)
+        T = self.sweep.get("range", args.get("range", 3.0))
         u = self.sweep.get("u", X)
         o = self.sweep.get("o", [0, 0, 0])
         self.L = max(1.0, self.A.scale(), self.B.scale(), T * max(1.0, sum(c * c for c in u) ** 0.5) + sum(abs(c) for c in o))
@@ -204,6 +206,12 @@ def is_symbolic_run():
 class JoltDistance(PairScenario):
     algo = "jolt"
 
+    def aux_params(self):
+        if self.sweep.get("range", 0) >= 300:
+            B = 1000.0
+            return [("aux_x1", -B, B), ("aux_y1", -B, B), ("aux_z1", -B, B), ("aux_x2", -B, B), ("aux_y2", -B, B), ("aux_z2", -B, B)]
+        return []
+
     def call(self, cx, inp):
         import distance3d.gjk as G
         a, b = self.colliders(cx, inp)
@@ -234,7 +242,14 @@ class JoltDistance(PairScenario):
         L = self.L
         k = self.tol_k
         if pa is None:
-            ob.require("not_clipped", exact=False)
+            # clipping is legitimate only beyond sqrt(max_distance_squared) = 316.2...: every pair of vertices must then
+            # be at least that far apart minus the two diameters
+            # i.e. no point x of A and y of B (6 extra free reals) are closer than 316
+            P = cx.P
+            x = [P["aux_x1"], P["aux_y1"], P["aux_z1"]]
+            y = [P["aux_x2"], P["aux_y2"], P["aux_z2"]]
+            close_pair = AND(SA.member(MA, x, 0.0), SB.member(MB, y, 0.0), NORM2(SUB(x, y)) <= 316.0 * 316.0)
+            ob.require("clipped_only_if_far", exact=AND(not self.args.get("no_clip"), NOT(close_pair)))
             return
         pa, pb = list(pa), list(pb)
         w = SUB(pa, pb)
@@ -261,13 +276,17 @@ def pair_jobs(tier, seed, algo=None, n_pairs_quick=10, extra=None):
     if tier == "quick":
         pairs = [(0, 0), (0, 1), (1, 2), (3, 0), (0, 4), (2, 5), (1, 6), (7, 3), (8, 2), (9, 0), (4, 4), (10, 1), (11, 7)]
         pairs = pairs[:n_pairs_quick]
+        if n_pairs_quick >= 10:
+            pairs.append((12, 12))      # large boxes (size 1e2), only on the far sweep
         sweeps = list(range(N_SWEEPS_QUICK))
     else:
         pairs = [(i, j) for i in range(len(P)) for j in range(len(P))]
         sweeps = list(range(len(SWEEPS)))
     for pi, (i, j) in enumerate(pairs):
         for si in sweeps:
-            if tier == "quick" and (pi + si + seed) % 4 not in (0, 1):
+            if (i == 12 or j == 12) and si != 8:
+                continue
+            if tier == "quick" and (pi + si + seed) % 4 not in (0, 1) and not (si == 8 and (pi % 3 == 0 or i == 12)):
                 continue
             a = {"a": P[i], "b": P[j], "sweep": SWEEPS[si], "a_pose": (pi + si) % 2, "swap": (pi + si) % 3 == 2}
             if algo:
